@@ -13,16 +13,23 @@ Proof.
   intros x y c Hy H. unfold ceilidiv. apply Nat.lt_succ_r. apply Nat.div_lt_upper_bound; [lia|]. nia.
 Qed.
 
-(* the only facts about the scraped tuning constants the bound below needs; a retune beyond them stops this proof *)
-Lemma hm_rate_facts : HM_GROW_n <= 4 * HM_MAXLF_n /\ 100 <= 4 * HM_MAXLF_n /\ HM_INIT_n <= 1024.
-Proof. vm_compute. lia. Qed.
+(* the only facts about the scraped tuning constants the bound below needs (generous: any growth rate up to 4096 times
+   the load factor); a retune beyond them stops this proof *)
+Lemma hm_rate_facts : HM_GROW_n <= 4096 * HM_MAXLF_n /\ 100 <= 4096 * HM_MAXLF_n /\ HM_INIT_n <= 1024.
+Proof.
+  assert (forall a b : Z, (0 <= a)%Z -> (0 <= b)%Z -> (a <= 4096 * b)%Z -> Z.to_nat a <= 4096 * Z.to_nat b) as H by (intros; lia).
+  split; [|split].
+  - apply H; vm_compute; discriminate.
+  - change 100 with (Z.to_nat 100). apply H; vm_compute; discriminate.
+  - change 1024 with (Z.to_nat 1024). apply Z2Nat.inj_le; vm_compute; discriminate.
+Qed.
 
-Lemma at_request_small : forall s, (Z.of_nat s < 2 ^ 60)%Z -> (Z.of_nat (at_request s) <= 2 ^ 62)%Z.
+Lemma at_request_small : forall s, (Z.of_nat s < 2 ^ 50)%Z -> (Z.of_nat (at_request s) <= 2 ^ 62)%Z.
 Proof.
   intros s H. destruct hm_rate_facts as (G & L & I). pose proof hm_maxlf_pos as P.
-  assert (ceilidiv (s * 100) HM_MAXLF_n <= 4 * s) by (apply ceilidiv_le; [assumption|nia]).
-  assert (ceilidiv ((s + 1) * 100) HM_MAXLF_n <= 4 * (s + 1)) by (apply ceilidiv_le; [assumption|nia]).
-  assert (ceilidiv ((s + 1) * HM_GROW_n) HM_MAXLF_n <= 4 * (s + 1)) by (apply ceilidiv_le; [assumption|nia]).
+  assert (ceilidiv (s * 100) HM_MAXLF_n <= 4096 * s) by (apply ceilidiv_le; [assumption|nia]).
+  assert (ceilidiv ((s + 1) * 100) HM_MAXLF_n <= 4096 * (s + 1)) by (apply ceilidiv_le; [assumption|nia]).
+  assert (ceilidiv ((s + 1) * HM_GROW_n) HM_MAXLF_n <= 4096 * (s + 1)) by (apply ceilidiv_le; [assumption|nia]).
   unfold at_request. lia.
 Qed.
 
@@ -529,17 +536,17 @@ Section HM5.
   Definition hop_count (o : hop K V) : nat :=
     match o with HReserve _ _ n | HRehash _ _ n => n | _ => 0 end.
 
-  Lemma hop_request_small : forall o s, (Z.of_nat s < 2 ^ 60)%Z -> (Z.of_nat (hop_count o) < 2 ^ 60)%Z ->
+  Lemma hop_request_small : forall o s, (Z.of_nat s < 2 ^ 50)%Z -> (Z.of_nat (hop_count o) < 2 ^ 50)%Z ->
     (Z.of_nat (hop_request o s) <= 2 ^ 62)%Z.
   Proof.
     intros o s Hs Hc. destruct hm_rate_facts as (G & L & _). pose proof hm_maxlf_pos as P.
-    assert (ceilidiv (s * 100) HM_MAXLF_n <= 4 * s) by (apply ceilidiv_le; [assumption|nia]).
+    assert (ceilidiv (s * 100) HM_MAXLF_n <= 4096 * s) by (apply ceilidiv_le; [assumption|nia]).
     destruct o; cbn [hop_request hop_count] in *; try (apply at_request_small; assumption); try lia.
-    assert (ceilidiv (n * 100) HM_MAXLF_n <= 4 * n) by (apply ceilidiv_le; [assumption|nia]). lia.
+    assert (ceilidiv (n * 100) HM_MAXLF_n <= 4096 * n) by (apply ceilidiv_le; [assumption|nia]). lia.
   Qed.
 
   Theorem hm_step_no_overflow : forall o m al, hm_R m al ->
-    (Z.of_nat (length al) < 2 ^ 60)%Z -> (Z.of_nat (hop_count o) < 2 ^ 60)%Z ->
+    (Z.of_nat (length al) < 2 ^ 50)%Z -> (Z.of_nat (hop_count o) < 2 ^ 50)%Z ->
     hm_step K V kdflt vdflt keqb khash o m <> Trap TrapOverflow.
   Proof.
     intros o m al R Hs Hc E. destruct (hm_step_refines o m al R) as [(_ & Hbig)|(m' & r & al' & r' & E' & _)].
@@ -548,8 +555,8 @@ Section HM5.
   Qed.
 
   Theorem hm_run_no_overflow : forall ops m al, hm_R m al ->
-    (Z.of_nat (length al + length ops) < 2 ^ 60)%Z ->
-    (forall o, In o ops -> (Z.of_nat (hop_count o) < 2 ^ 60)%Z) ->
+    (Z.of_nat (length al + length ops) < 2 ^ 50)%Z ->
+    (forall o, In o ops -> (Z.of_nat (hop_count o) < 2 ^ 50)%Z) ->
     hm_run ops m <> Trap TrapOverflow.
   Proof.
     intros ops m al R Hs Hc E.
